@@ -263,11 +263,14 @@ class State(object):
         return None
 
 
-def explore_fork(st, hist_ops, depth, ctr, vfile):
-    """DFS: every successor state is a forked clone of the current process."""
+def explore_fork(st, hist_ops, depth, ctr, vfile, observers_only=False):
+    """DFS: every successor state is a forked clone of the current process.  observers_only: apply the pure
+    observers of this state and stop (the state-changing successors are other work items)."""
     if len(hist_ops) >= depth:
         return
     for op in st.enabled():
+        if observers_only and op[0] not in ("call", "ccall"):
+            continue
         if op[0] in ("call", "ccall"):
             # pure observers: the successor state is the current state, so they are applied in place
             # (checked, counted) and nothing new lies below them
@@ -308,45 +311,64 @@ def explore_fork(st, hist_ops, depth, ctr, vfile):
 
 
 def work(item):
-    """One (L, first op) subtree, explored inside a forked child holding L background callbacks."""
-    L, first, depth = item
+    """One work item, explored inside a forked child holding L background callbacks.
+    (L, first, depth, None): apply `first`, run the observers of that state, report its state-changing successors.
+    (L, first, depth, second): apply `first` (already counted by the item above), then `second`, then everything below."""
+    L, first, depth, second = item
+    _ST["depth"] = depth
     ctr = mmap.mmap(-1, 64)
     struct.pack_into("qqq", ctr, 0, 0, 0, 0)
-    vfile = os.path.join(build.scratch(), "c29-viol-%d-%s.jsonl" % (L, "_".join(map(str, first))))
+    tag = "_".join(map(str, tuple(first) + tuple(second or ())))
+    vfile = os.path.join(build.scratch(), "c29-viol-%d-%s.jsonl" % (L, tag))
+    cfile = vfile + ".children"
     open(vfile, "w").close()
     pid = os.fork()
     if pid == 0:
+        h = []
         try:
             _gc.disable()
             st = State(L)
             info = st.check()
-            if info is not None:
-                with open(vfile, "a") as f:
-                    f.write(json.dumps({"history": [], "info": info}) + "\n")
-            else:
-                # apply the first op in a clone, then continue below it
+            if info is None:
                 h = [list(first)]
                 info = st.apply(tuple(first))
-                struct.pack_into("qqq", ctr, 0, 1, 1, 0)
-                if info is not None:
-                    with open(vfile, "a") as f:
-                        f.write(json.dumps({"history": h, "info": info}) + "\n")
-                else:
-                    explore_fork(st, h, depth, ctr, vfile)
+                if second is None:
+                    struct.pack_into("qqq", ctr, 0, 1, 1, 0)
+                if info is None and second is None:
+                    if depth > 1:
+                        with open(cfile, "w") as f:
+                            json.dump([list(op) for op in st.enabled() if op[0] not in ("call", "ccall")], f)
+                    explore_fork(st, h, depth, ctr, vfile, observers_only=True)
+                elif info is None:
+                    h = h + [list(second)]
+                    info = st.apply(tuple(second))
+                    struct.pack_into("qqq", ctr, 0, 1, 2, 0)
+                    if info is None:
+                        explore_fork(st, h, depth, ctr, vfile)
+                elif second is not None:
+                    info = None          # reported by the item without `second`
+            if info is not None:
+                with open(vfile, "a") as f:
+                    f.write(json.dumps({"history": h, "info": info}) + "\n")
         except BaseException as e:
             with open(vfile, "a") as f:
-                f.write(json.dumps({"history": [list(first)], "info": {"kind": "exception", "error": repr(e)}}) + "\n")
+                f.write(json.dumps({"history": h, "info": {"kind": "exception", "error": repr(e)}}) + "\n")
         finally:
             os._exit(0)
     _, status = os.waitpid(pid, 0)
     viol = []
     if os.WIFSIGNALED(status):
-        viol.append({"history": [list(first)], "info": {"kind": "crash", "signal": os.WTERMSIG(status)}})
+        viol.append({"history": [list(first)] + ([list(second)] if second else []),
+                     "info": {"kind": "crash", "signal": os.WTERMSIG(status)}})
     with open(vfile) as f:
         for line in f:
             viol.append(json.loads(line))
+    children = []
+    if os.path.exists(cfile):
+        with open(cfile) as f:
+            children = [tuple(c) for c in json.load(f)]
     n = struct.unpack_from("qqq", ctr, 0)
-    return {"L": L, "transitions": n[0], "max_depth": n[1], "viol": viol}
+    return {"L": L, "transitions": n[0], "max_depth": n[1], "viol": viol, "children": children}
 
 
 def run(ctx):
@@ -370,18 +392,32 @@ def run(ctx):
     _ST["max_cycles"] = 1 if ctx.quick else 2
     _ST["depth"] = depth
     first_ops = [("new", "A"), ("new", "B"), ("newcyc", "late"), ("newcyc", "early"), ("collect",)]
-    items = [(L, f, depth) for L in Ls for f in first_ops]
+    # quick: full depth from the empty allocator and from the state just before the first page boundary; one
+    # step less from the two states beyond it (every process there carries 73 / 218 callbacks)
+    depth_of = dict((L, depth) for L in Ls)
+    if ctx.quick:
+        for L in Ls[2:]:
+            depth_of[L] = depth - 1
+    items = [(L, f, depth_of[L], None) for L in Ls for f in first_ops]
     # split further: second-level ops for the 'new' subtrees are the expensive part; keep one level
     tot = 0
     maxd = 0
-    for item, r in pool.pmap(work, [[it] for it in items], contain_crashes=False, item_timeout=3000, nproc=6):
-        if isinstance(r, pool.WorkerError):
-            raise InfraError(r.tb)
-        tot += r["transitions"]
-        maxd = max(maxd, r["max_depth"])
-        ctx.count("L=%d" % r["L"], r["transitions"])
-        for v in r["viol"]:
-            ctx.violation({"kind": v["info"].get("kind")}, {"L": item[0], "history": v["history"], "info": v["info"]})
+    # phase 1: every (L, first op) state with its observers; phase 2: one item per state-changing successor of those
+    for phase in (1, 2):
+        nxt = []
+        for item, r in pool.pmap(work, [[it] for it in items], contain_crashes=False, item_timeout=3000, nproc=12):
+            if isinstance(r, pool.WorkerError):
+                raise InfraError(r.tb)
+            tot += r["transitions"]
+            maxd = max(maxd, r["max_depth"])
+            ctx.count("L=%d" % r["L"], r["transitions"])
+            for v in r["viol"]:
+                ctx.violation({"kind": v["info"].get("kind")}, {"L": item[0], "history": v["history"], "info": v["info"]})
+            for c in r["children"]:
+                nxt.append((item[0], item[1], item[2], c))
+        items = nxt
+        if phase == 1:
+            ctx.count("work_items_phase2", len(items))
     ctx.sample({"L": Ls[1], "history": [["new", "A"], ["drop", 0], ["new", "B"], ["ccall", 0]]})
     cov = {
         "states": tot, "transitions": tot, "traces_validated_against_impl": tot, "max_depth": maxd,
@@ -390,7 +426,7 @@ def run(ctx):
                 "(create, drop, collect); the pure observers (call through cdata, call from C) are applied in place in every "
                 "state and not extended, since they leave the state unchanged; no other merging",
         "initial_live_callbacks": Ls, "closure_stride_bytes": stride, "page_boundaries_after": bounds[:6],
-        "unmerged_depth_d0": depth, "exhaustive": True,
+        "unmerged_depth_d0": depth, "depth_per_initial_state": dict((str(k), v) for k, v in depth_of.items()), "exhaustive": True,
     }
     return ctx.finish(cov, ["fork() clones the allocator state exactly"])
 
